@@ -518,6 +518,43 @@ static void cmd_abs(int nt, char **t)
 	ob_printf(&out, "= %ld", r ? uid_of(r) : -2L);
 }
 
+/* UIDS <h> -> structure with uids: <uid> | <uid>[ ... ] | <uid>{ k<hex> ... } | n */
+static void uids_rec(struct json_object *o)
+{
+	if (!o) { ob_puts(&out, " n"); return; }
+	ob_printf(&out, " %ld", uid_of(o));
+	if (json_object_is_type(o, json_type_array)) { size_t i, n = json_object_array_length(o); ob_puts(&out, "["); for (i = 0; i < n; i++) uids_rec(json_object_array_get_idx(o, i)); ob_puts(&out, " ]"); }
+	else if (json_object_is_type(o, json_type_object)) { ob_puts(&out, "{"); { json_object_object_foreach(o, k, v) { ob_puts(&out, " k"); ob_hex(&out, k, strlen(k)); uids_rec(v); } } ob_puts(&out, " }"); }
+}
+static void cmd_uids(int nt, char **t) { (void)nt; ob_puts(&out, "="); uids_rec(H[hidx(t[1])]); }
+/* PSET <hroot> <pathhex> <hval> -> = <rc> <errno> del=..   (json_pointer_set; the root handle is updated) */
+static void cmd_pset(int nt, char **t)
+{
+	int hr = hidx(t[1]), hv = hidx(t[3]); char *p = keyarg(t[2]); int rc; (void)nt;
+	errno = 0; rc = json_pointer_set(&H[hr], p, H[hv]);
+	ob_printf(&out, "= %d %d", rc, errno); emit_dlog(); free(p);
+}
+
+/* PGET <hroot> <pathhex> [mode 0 plain | 1 getf("%s") | 2 NULL result pointer]  -> = <rc> <errno> <ptr hex | ->  */
+static void cmd_pget(int nt, char **t)
+{
+	int hr = hidx(t[1]); char *p = keyarg(t[2]); int mode = nt > 3 ? (int)L(t[3]) : 0; struct json_object *res = (struct json_object *)0x1; int rc;
+	errno = 0;
+	if (mode == 1) rc = json_pointer_getf(H[hr], &res, "%s", p);
+	else if (mode == 2) { rc = json_pointer_get(H[hr], p, NULL); res = NULL; }
+	else rc = json_pointer_get(H[hr], p, &res);
+	ob_printf(&out, "= %d %d ", rc, errno);
+	if (rc == 0 && mode != 2) ob_printf(&out, "%lx", (unsigned long)(uintptr_t)res); else ob_putc(&out, '-');
+	free(p);
+}
+/* PSETF <hroot> <pathhex> <hval>   json_pointer_setf("%s") */
+static void cmd_psetf(int nt, char **t)
+{
+	int hr = hidx(t[1]), hv = hidx(t[3]); char *p = keyarg(t[2]); int rc; (void)nt;
+	errno = 0; rc = json_pointer_setf(&H[hr], H[hv], "%s", p);
+	ob_printf(&out, "= %d %d", rc, errno); emit_dlog(); free(p);
+}
+
 /* ---- strings (C11) ---- */
 /* SSTR <h> <hex> [lenoverride]   json_object_set_string_len from an exact-size block;  SSTRZ: json_object_set_string */
 static void cmd_sstr(int nt, char **t)
@@ -618,6 +655,10 @@ static void dispatch(int nt, char **t)
 	else if (!strcmp(c, "OKEYS")) cmd_okeys(nt, t);
 	else if (!strcmp(c, "OSER")) cmd_oser(nt, t);
 	else if (!strcmp(c, "OITDEL")) cmd_oitdel(nt, t);
+	else if (!strcmp(c, "UIDS")) cmd_uids(nt, t);
+	else if (!strcmp(c, "PSET")) cmd_pset(nt, t);
+	else if (!strcmp(c, "PGET")) cmd_pget(nt, t);
+	else if (!strcmp(c, "PSETF")) cmd_psetf(nt, t);
 	else if (!strcmp(c, "HASHFN")) cmd_hashfn(nt, t);
 	else if (!strcmp(c, "HASH")) cmd_hash(nt, t);
 	else if (!strcmp(c, "AADD")) cmd_aadd(nt, t);
